@@ -535,7 +535,61 @@ theorem mutation_pixeltype_falsifies_siddSegOk (pt pt' : SiddPixel) (h : (siddEx
     siddSegOk pt' (siddWriterSeg pt rows cols) = false := by
   cases pt <;> cases pt' <;> first | exact absurd rfl h | simp [siddSegOk, siddWriterSeg, siddExpect]
 
+/-! ## the DES scan: additional DES segments in front of the product DES do not hide it -/
+
+theorem sicdScanFrom_skip (i : Nat) (extras rest : List DesKind) (h : ∀ e ∈ extras, e = .otherXml ∨ e = .other) :
+    sicdScanFrom i (extras ++ rest) = sicdScanFrom (i + extras.length) rest := by
+  induction extras generalizing i with
+  | nil => simp
+  | cons e r ih =>
+    have hr : ∀ e ∈ r, e = .otherXml ∨ e = .other := fun x hx => h x (List.mem_cons_of_mem _ hx)
+    rcases h e (List.mem_cons_self) with rfl | rfl <;>
+      simp only [List.cons_append, sicdScanFrom, ih _ hr, List.length_cons] <;> congr 1 <;> omega
+
+/-- **the SICD DES is found behind any number of additional DES segments** (`SICDWritingDetails(additional_des=…)` puts them in
+    front): user-defined and foreign-XML segments are skipped, the scan goes on to the end of the list -/
+theorem writer_satisfies_sicdScan (extras : List DesKind) (h : ∀ e ∈ extras, e = .otherXml ∨ e = .other) :
+    sicdScan (extras ++ [.sicdXml]) = some extras.length := by
+  unfold sicdScan
+  rw [sicdScanFrom_skip 0 extras _ h]
+  simp [sicdScanFrom]
+
+/-- no SICD DES at all: the checker refuses the file -/
+theorem mutation_no_sicd_des_falsifies_sicdScan (des : List DesKind) (h : ∀ e ∈ des, e = .otherXml ∨ e = .other) :
+    sicdScan des = none := by
+  unfold sicdScan
+  have := sicdScanFrom_skip 0 des [] h
+  rw [List.append_nil] at this
+  rw [this]
+  simp [sicdScanFrom]
+
+/-- a second SICD DES: refused ("Multiple SICD DES values found") -/
+theorem mutation_second_sicd_des_falsifies_sicdScan (a b : List DesKind) (h : ∀ e ∈ a ++ b, e = .otherXml ∨ e = .other) :
+    sicdScan (a ++ .sicdXml :: (b ++ [.sicdXml])) = none := by
+  have ha : ∀ e ∈ a, e = .otherXml ∨ e = .other := fun e he => h e (List.mem_append_left _ he)
+  have hb : ∀ e ∈ b, e = .otherXml ∨ e = .other := fun e he => h e (List.mem_append_right _ he)
+  unfold sicdScan
+  rw [sicdScanFrom_skip 0 a _ ha]
+  simp only [sicdScanFrom]
+  rw [sicdScanFrom_skip _ b _ hb]
+  simp [sicdScanFrom]
+
+/-- a SIDD DES in front of the SICD DES: refused ("should be a SIDD file") -/
+theorem mutation_sidd_des_falsifies_sicdScan (extras rest : List DesKind) (h : ∀ e ∈ extras, e = .otherXml ∨ e = .other) :
+    sicdScan (extras ++ .siddXml :: rest) = none := by
+  unfold sicdScan
+  rw [sicdScanFrom_skip 0 extras _ h]
+  simp [sicdScanFrom]
+
+/-- a SIDD file is recognised behind any additional DES segments, with any number of SIDD and SICD DES -/
+theorem writer_satisfies_siddFound (extras : List DesKind) (n m : Nat) :
+    siddFound (extras ++ List.replicate (n + 1) .siddXml ++ List.replicate m .sicdXml) = true := by
+  simp [siddFound, List.replicate_succ]
+
 /-! ## satisfiable examples -/
+
+example : sicdScan [.other, .otherXml, .sicdXml] = some 2 ∧ sicdScan [.other, .otherXml] = none ∧
+    sicdScan [.sicdXml, .other, .sicdXml] = none ∧ sicdScan [.other, .siddXml, .sicdXml] = none := by decide
 
 -- the hypotheses of `writer_satisfies_xmlEarly` on a real header: 292 bytes of header text, first candidate offset 1024
 example : choose (fun _ => 292) 6163 (some 140) 2240 116 2 1024 = some (layout 1024 6163 (some 140) 2240 116) := by decide
